@@ -31,7 +31,7 @@ ASSUMPTIONS = ["configurations whose truth is a matter of convention (parts touc
 def plan(tier):
     return {"shards": 8 if tier == "quick" else 16, "budget_s": 30 if tier == "quick" else 420,
             "required_counters": ["meshes_checked", "status_checks", "orientation_checks", "field_checks",
-                                  "tetra_exhaustive_cases", "kind:torus", "kind:interpenetrating", "kind:open"],
+                                  "tetra_exhaustive_cases", "kind:torus", "kind:interpenetrating", "kind:spike", "kind:open"],
             "exhaustive": "tetrahedron: all 24 face orders x 16 winding subsets x 24 vertex renumberings (thorough, "
                           "when counter tetra_slices_completed == shards; quick: a 1/8 stride)"}
 
@@ -61,6 +61,18 @@ def base_mesh(rng, kind, thin):
         V, F = M.union([A, B])
         truth["disconnected"] = True
         truth["selfintersecting"] = True
+    elif kind == "spike":
+        # one-sided penetration: the tip of a slender tetrahedron pokes through the middle of a box face;
+        # no edge of the box meets the spike, only the spike's edges pierce one box face
+        A = M.box((2.0, 2.0, 1.0))
+        tip = np.array([rng.uniform(-0.3, 0.3), rng.uniform(-0.3, 0.3), 0.5 - rng.uniform(0.1, 0.4)])
+        base_c = np.array([tip[0], tip[1], 2.0])
+        r = 0.15
+        VB = np.array([tip, base_c + [r, 0, 0], base_c + [-r / 2, r * 0.87, 0], base_c + [-r / 2, -r * 0.87, 0]])
+        FB = M.orient_outward_convex(VB, np.array([[0, 1, 2], [0, 2, 3], [0, 3, 1], [1, 3, 2]]))
+        V, F = M.union([A, (VB, FB)])
+        truth["disconnected"] = True
+        truth["selfintersecting"] = True
     elif kind == "open":
         V, F = M.convex_hull(rng) if rng.random() < 0.5 else M.extrude(M.SHAPES["L"])
         k = int(rng.integers(1, 3))
@@ -71,7 +83,7 @@ def base_mesh(rng, kind, thin):
     return V, F, truth
 
 
-KINDS = ["hull", "box", "prism", "L", "U", "T", "star", "torus", "plate", "two_parts", "interpenetrating", "open"]
+KINDS = ["hull", "box", "prism", "L", "U", "T", "star", "torus", "plate", "two_parts", "interpenetrating", "spike", "open"]
 
 
 def build(V, F, **kw):
